@@ -196,9 +196,25 @@ static uint64_t kx_pattern_hash(char** rows, int n)
 static int kx_kalign_arr(const struct kx_set* in, int threads, int type, float gpo, float gpe, float tgpe,
                          char*** rows, int* alnlen)
 {
+        /* The sequences are handed over as (pointer, length) slices of longer buffers: each is followed by "W*" instead of a
+           terminating 0, so a routine that looks past the given length sees a protein-only letter and a punctuation mark. */
+        char** sl = malloc(sizeof(char*) * (size_t)(in->n + 1));
+        int i, rc;
         *rows = NULL;
         *alnlen = 0;
-        return kalign((char**)in->seq, (int*)in->len, in->n, threads, type, gpo, gpe, tgpe, rows, alnlen);
+        for(i = 0; i < in->n; i++){
+                sl[i] = malloc((size_t)in->len[i] + 3);
+                memcpy(sl[i], in->seq[i], (size_t)in->len[i]);
+                sl[i][in->len[i]] = 'W';
+                sl[i][in->len[i] + 1] = '*';
+                sl[i][in->len[i] + 2] = 0;
+        }
+        rc = kalign(sl, (int*)in->len, in->n, threads, type, gpo, gpe, tgpe, rows, alnlen);
+        for(i = 0; i < in->n; i++){
+                free(sl[i]);
+        }
+        free(sl);
+        return rc;
 }
 
 /* ---- building an msa object with names, without files (internal API; avoids the
